@@ -34,6 +34,15 @@ T = {
  "C08-r2-natural-sort-paths": ("C08", "key set with two paths whose text order and numeric order differ (m/44'/2'/... next to m/44'/137'/...)", "caught as written (extra paths in the key pool)"),
  "C09-r2-finally-to-else": ("C09", "bootloader start with a PIN change needed, and the change fails (refused / time-out / commit failure): the manager carries on and serves", "MISSED at first by C09 (the grid's PIN change always succeeded; C10 flagged it); caught after adding the change-outcome dimension to the C09 grid"),
  "C10-r2-reconnect-swallows-interrupt": ("C10", "manager started with the device already in the signer and a PIN change pending, link failure, device back in bootloader: the change happens inside a request and the interrupt is swallowed", "MISSED at first (PIN changes were only driven through start-up); caught after adding the 'reconnect' stage to C10"),
+ "C11-r2-none-handle-after-failed-connect": ("C11", "link failure, then a failed reconnection, then another request (handle set to None on a failed connect, unguarded in disconnect)", "caught as written (reconnection fails k = 1..3 times then succeeds)"),
+ "C12-r2-background-recovery-thread": ("C12", "a link failure while clients are connected: reconnection started on a background thread races with the next request", "MISSED at first by C12 (schedules had no faults; C11 flagged it); caught after adding one link failure to a third of the schedules and the 'exchange outside any request' invariant"),
+ "C13-r2-uihb-early-return": ("C13", "uiHeartbeat whose heartbeat generation fails on the device (status error inside UI-heartbeat mode): early return leaves the device in UI-heartbeat mode, the next uiHeartbeat reports success there", "MISSED at first (no device-side heartbeat failures; histories stopped when the device was not in signer mode); caught after adding one-shot heartbeat failures and continuing histories while the device obeys mode switches"),
+ "C14-r2-cleared-txin-cache-by-outpoint": ("C14", "a second transaction spending an outpoint seen before with another script / sequence (module-level cache keyed by outpoint)", "caught as written (module state survives between generated cases of one worker, outpoints collide after shrinking and by design of the edge pool)"),
+ "C15-r2-root-lru-cache-by-path": ("C15", "two SGX verifications in one interpreter with the root file changed in place between them (lru_cache keyed by path)", "caught as written (every case of a worker writes its root to the same path)"),
+ "C16-r2-memoised-chain-pop": ("C16", "second validation of the same object, or a duplicated target (memoised chain consumed by pop)", "caught as written by the second-validation check added after round 1"),
+ "C17-r2-signature-length-window": ("C17", "a valid DER signature shorter than 70 bytes (r or s below 2^247)", "caught as written (signatures by arbitrary keys over the digest; short ones occur)"),
+ "C18-r2-askpin-drops-retry": ("C18", "PIN typed at the prompt, first entry rejected, second valid: the first entry is what reaches the device", "caught as written (typed-bad-then-valid input class)"),
+ "C19-r2-dict-by-hash-collapses": ("C19", "two images with identical data areas in one one-time signing run (table keyed by hash)", "caught as written (shrunk / small images coincide; the set of written files is compared)"),
 }
 
 
